@@ -9,7 +9,7 @@ from ..session import Outcome
 from . import PropBase, steps_with_ids
 from .c06 import _first_non_plain
 
-FAULTS = ("exhaust", "stack", "clear", "clear_typing", "reclimit", "root_order", "reject_deep", "exhaust_scan")
+FAULTS = ("exhaust", "stack", "clear", "clear_typing", "reclimit", "root_order", "reject_deep", "exhaust_scan", "reload")
 
 
 def _edge_wrap(edge_t, inner_v, inner_w):
@@ -170,6 +170,9 @@ class C07(PropBase):
             if steps and "clear_typing" in sw and r < 0.16:
                 steps.append({"op": "clear_typing"})
                 continue
+            if steps and "reload" in sw and r < 0.22:
+                steps.append({"op": "reload"})
+                continue
             ri, shape, kind = rng.choice(roots)
             if kind == "alias":
                 exhaust = "exhaust" in sw and rng.random() < (0.5 if burst else 0.2)
@@ -287,6 +290,15 @@ class C07(PropBase):
         return {"prop": self.ID, "seed": seed, "tier": tier, "world": world, "env": env, "steps": steps_with_ids(steps), "meta": {"swarm": sw, "limit": limit}}
 
     def exec_op(self, sess, i, step):
+        if step["op"] == "reload":
+            # the world's modules are executed again: new classes under the old names (every level of a value
+            # converted from now on is an instance of the new classes)
+            sess.world.reload()
+            sess.results.clear()
+            sess.prebuilt.clear()
+            sess.faults["reload"] += 1
+            sess.fault_fired_before = True
+            return Outcome(True, "reloaded")
         if step["op"] != "unmarshal_mixed":
             return None
         import typelib
